@@ -23,7 +23,9 @@ pub struct SchemeSpec {
 
 impl SchemeSpec {
     pub fn builder(&self) -> SchemeBuilder {
-        let mut b = SchemeBuilder::new();
+        // both public ways of starting a builder (the C API's is `Default`); a function of the spec's size would make
+        // twins agree, but twins that start differently are exactly what identity must tell apart, so it is a tape choice
+        let mut b = if chance(1, 2, "scheme.builder_default") { SchemeBuilder::default() } else { SchemeBuilder::new() };
         for (name, ty, optional) in &self.fields {
             if *optional {
                 b.add_optional_field(name, ty.to_type()).expect("field");
@@ -225,6 +227,18 @@ pub fn scheme_family(which: usize) -> SchemeSpec {
             lists: vec![],
             nil_ne: true,
         },
+        // wide: more fields than any machine word has bits (per-field bookkeeping must not be packed into one)
+        7 => {
+            let n = range(65, 140, "scheme.wide_n");
+            let tys = [Int, Bytes, Bool, Ip, Array(b(Int)), Map(b(Bytes)), Array(b(Bytes))];
+            SchemeSpec {
+                family: "wide",
+                fields: (0..n).map(|i| f(&format!("w{i}"), tys[i % tys.len()].clone(), true)).collect(),
+                functions: vec!["echo"],
+                lists: vec![],
+                nil_ne: true,
+            }
+        }
         _ => SchemeSpec {
             family: "all_optional",
             fields: vec![f("x", Int, true), f("y", Bytes, true), f("z", Ip, true), f("w", Bool, true), f("m", Map(b(Bytes)), true)],
